@@ -1,3 +1,4 @@
+mod adapters;
 mod fsrun;
 mod names;
 mod spec;
@@ -12,6 +13,9 @@ fn main() {
         "names-gen" => names::cmd_gen(&args),
         "names-impl" => names::cmd_impl(&args),
         "fs" => fsrun::cmd_fs(&args),
+        "adapters-gen" => adapters::cmd_gen(&args),
+        "adapters-impl" => adapters::cmd_impl(&args),
+        "adapters-canon" => adapters::cmd_canon(&args),
         "gen-one" => {
             let _ = std::panic::take_hook(); // default panic output, like the CLI
             fsrun::cmd_gen_one(&args)
